@@ -21,7 +21,9 @@ CLAIM = dict(
          "roots of unity (roundtrip_exact_dft), so only 'numpy/FFTW compute the DFT' is assumed; the code's tolerance test |d-dmin|<tol is decided exactly in Q; if every selected replica and its "
          "mirror image lie inside the replica search box, the selection for -s is the mirror image of the selection for s "
          "with equal Ndegen (hence X(-R)=X(R)^dagger for Hermitian input) - and a proved counterexample shows that this "
-         "hypothesis is needed (finding F12).  The model is tied to the code by running both on the same exact inputs "
+         "hypothesis is needed (finding F12); exclude_zeros (last step of do_ws_dist) keeps exactly the R vectors with some "
+         "|element| > tolerance and splits every k-space sum into kept + dropped (no sum changes when only zeros are dropped), "
+         "with a proved counterexample for the rule 'largest element > tolerance' without abs.  The model is tied to the code by running both on the same exact inputs "
          "(iRvec lists in code order, Ndegen, shift classes, remap tables and weights as exact rationals, mesh slots and "
          "error kinds, q_to_R values exactly over Gaussian rationals on meshes dividing 4).",
     note="Trusted: Lean kernel + Mathlib; the harness; the FFT libraries compute the DFT (inversion itself is proved; the "
@@ -36,14 +38,18 @@ TRUSTED = [
     "FFTContract (DFT inversion on the mesh box) is proved for the exact DFT (dft_FFTContract, from Mathlib's primitive roots); "
     "trusted: numpy.fft / FFTW compute that DFT up to rounding - the oracle checks the resulting round trip numerically with "
     "both libraries on every run",
-    "not modelled (oracle only): conj_XX_R/reverseR, remap_XX_R / System_R.do_ws_dist, exclude_zeros, get_system_w90 glue, "
-    "select_left/select_right sub-blocks (oracle)",
+    "modelled: Rvectors.exclude_zeros (kept R vectors, exact on Gaussian-rational blocks incl. negative real, purely "
+    "imaginary, tiny and at-tolerance entries)",
+    "not modelled (oracle only): conj_XX_R/reverseR, remap_XX_R / System_R.do_ws_dist / from_sparse pipeline (oracle on sparse "
+    "structured models and on dense random ones), get_system_w90 glue, select_left/select_right sub-blocks",
     "the code computes distances in doubles; the model uses exact rationals from the Gram matrix; for hexagonal/Gram-defined "
     "lattices the code receives a float Cholesky factor of the rational Gram matrix",
 ]
 RULE = ("lattices: cubic, orthorhombic, fcc, bcc, hexagonal-by-Gram, rhombohedral-by-Gram, rational triclinic; mesh in [1,5]^3; "
         "1-4 centres on special positions (exact Wigner-Seitz boundary ties), dyadic/decimal generic positions, inside and up to "
         "several cells outside the home cell, coinciding or not; tolerances 1e-5..0.5 and the legacy negative tolerance; "
+        "sparse models (from_sparse -> do_ws_dist) with few blocks of negative real / purely imaginary / tiny / complex entries, "
+        "scalar and vector valued; "
         "non-trivial = at least one replica class with Ndegen >= 2 (corr) / at least 2 mesh points or 2 centres (oracle); "
         "distinct = distinct (lattice, mesh, tolerance, centres, k order)")
 
@@ -220,7 +226,7 @@ def run_batched(ctx, gens):
 
 
 def corr(ctx):
-    run_batched(ctx, [corr_ws, corr_rvec, corr_placek, corr_qtor])
+    run_batched(ctx, [corr_ws, corr_rvec, corr_placek, corr_qtor, corr_exclz])
 
 
 def corr_ws(ctx):
@@ -486,6 +492,82 @@ def corr_qtor(ctx):
                 break
 
 
+
+# ------------------------------------------------------------------------------------------------
+# exclude_zeros / sparse models (the last step of System_R.do_ws_dist)
+
+TINY = 2.0 ** -40      # far below every tolerance used, exactly representable
+
+
+def sparse_value(rng, kind=None):
+    """one matrix element of a structured sparse model: the sign / phase classes that dense random data never isolates"""
+    kind = kind or rng.choice(["neg", "neg", "imag", "imag-", "pos", "complex", "tiny", "negcomplex"])
+    m = rng.choice([1.0, 0.5, 0.25, 2.0, 0.125])
+    return {"neg": -m, "imag": 1j * m, "imag-": -1j * m, "pos": m, "complex": m * (1 - 0.5j),
+            "tiny": rng.choice([TINY, -TINY, 1j * TINY]), "negcomplex": m * (-1 - 0.5j)}[kind], kind
+
+
+def corr_exclz(ctx):
+    """Rvectors.exclude_zeros(dict of matrices, tolerance): kept R vectors (in order) vs the model, on sparse blocks whose
+    entries are negative real, purely imaginary, tiny, exactly at the tolerance, or zero"""
+    from wannierberri.fourier.rvectors import Rvectors
+    rng = ctx.rng
+    lines, expect, cases = [], [], []
+    for it in range(ctx.n(40, 300)):
+        nR = rng.randint(1, 9)
+        iR = set()
+        while len(iR) < nR:
+            iR.add(tuple(rng.randint(-2, 2) for _ in range(3)))
+        iR = sorted(iR)
+        rng.shuffle(iR)
+        iR = np.array(iR)
+        nw = rng.randint(1, 2)
+        tolf, tolq = rng.choice([(1e-8, Fr(1, 10 ** 8)), (1e-8, Fr(1, 10 ** 8)), (0.25, Fr(1, 4)), (2.0 ** -30, Fr(1, 2 ** 30))])
+        mats = {"Ham": np.zeros((nR, nw, nw), dtype=complex)}
+        if rng.random() < 0.5:
+            mats["AA"] = np.zeros((nR, nw, nw, 3), dtype=complex)
+        kinds = set()
+        for i in range(nR):
+            for X in mats.values():
+                r = rng.random()
+                if r < 0.35:
+                    continue                                    # all-zero block in this matrix
+                nel = 1 if r < 0.8 else 2
+                for _ in range(nel):
+                    idx = tuple(rng.randrange(d) for d in X.shape[1:])
+                    if rng.random() < 0.2:
+                        v, k = rng.choice([(tolf, "at-tol"), (-tolf, "at-tol"), (1j * tolf, "at-tol"), (-2 * tolf, "2tol")])
+                    else:
+                        v, k = sparse_value(rng)
+                    X[(i,) + idx] = v
+                    kinds.add(k)
+        case = dict(iRvec=iR, tolerance=tolf, matrices={k: v for k, v in mats.items()})
+        with ctx.attempt("Rvectors.exclude_zeros", case):
+            with quiet():
+                rv = Rvectors(lattice=np.eye(3), iRvec=iR, shifts_left_red=np.zeros((nw, 3)))
+                new, rvn = rv.exclude_zeros({k: v.copy() for k, v in mats.items()}, tolerance=tolf)
+            kept = [tuple(int(x) for x in R) for R in rvn.iRvec]
+            # kept blocks must be the original blocks
+            index = {tuple(int(x) for x in R): i for i, R in enumerate(iR)}
+            for k in mats:
+                if new[k].shape[0] != len(kept) or any(not np.array_equal(new[k][j], mats[k][index[R]]) for j, R in enumerate(kept)):
+                    ctx.fail(f"exclude_zeros changed or misplaced the kept blocks of {k}", case)
+            blocks = []
+            for i, R in enumerate(iR):
+                els = np.concatenate([X[i].reshape(-1) for X in mats.values()])
+                blocks.append(f"{int(R[0])},{int(R[1])},{int(R[2])}:" + ";".join(f"{rat(F(z.real))},{rat(F(z.imag))}" for z in els))
+            lines.append(f"exclz {rat(F(tolf))} " + "#".join(blocks))
+            expect.append(";".join(f"{R[0]},{R[1]},{R[2]}" for R in kept) if kept else "_")
+            cases.append(case)
+            for k in kinds:
+                ctx.count(f"corr.exclz.has_{k}")
+            ctx.count("corr.exclz.dropped_some" if len(kept) < nR else "corr.exclz.kept_all")
+    out = yield lines
+    for l, o, e, c in zip(lines, out, expect, cases):
+        ctx.case(signature=l, nontrivial=True)
+        if o != e:
+            ctx.mismatch(f"exclude_zeros: kept R vectors differ: model={o[:150]} code={e[:150]}", dict(line=l[:400], case=c))
+
 # ------------------------------------------------------------------------------------------------
 # property oracle on the real code
 
@@ -533,6 +615,7 @@ def explicit_sum(kpts, iRvec, XR):
 def oracle(ctx, scale):
     oracle_roundtrip(ctx, scale)
     oracle_do_ws_dist(ctx, scale)
+    oracle_sparse(ctx, scale)
 
 
 def oracle_roundtrip(ctx, scale):
@@ -653,6 +736,99 @@ def oracle_do_ws_dist(ctx, scale):
                     ctx.fail(f"do_ws_dist: {key}(-R) != {key}(R)^dagger after re-mapping ({h:.3e})"
                              + (" [a selected replica has its mirror image outside the 7^3 search box]" if far else ""),
                              case, kf="F12-hermiticity-far-centres" if far else None)
+
+
+def gen_sparse_model(rng, nprng):
+    """structured sparse tight-binding model for System_R.from_sparse: few non-zero blocks, each with ONE or two elements
+    that are negative real, purely imaginary, complex with negative real part, tiny, ... ; scalar 'Ham' and (sometimes)
+    vector-valued 'AA'; Hermitian by construction (every hopping is entered with its -R partner)"""
+    kind, L = rand_lattice_float(rng, nprng)
+    nw = rng.randint(1, 3)
+    cent = nprng.uniform(0, 1, (nw, 3))
+    style = rng.choice(["mixed", "all-negative", "all-imaginary", "mixed", "one-hop"])
+    ham = {(0, 0, 0): {}}
+    for a in range(nw):
+        ham[(0, 0, 0)][(a, a)] = rng.choice([-0.5, 0.25, -1.0, 0.0]) if style != "all-imaginary" else 0.0
+    mats = {"Ham": ham}
+    vec = rng.random() < 0.5
+    if vec:
+        mats["AA"] = {(0, 0, 0): {(0, 0): np.zeros(3, dtype=complex)}}
+    kinds = set()
+
+    def add(dic, R, i, j, val):
+        mR = tuple(-x for x in R)
+        if R == mR and i == j:
+            val = np.real(val) + 0j
+        dic.setdefault(R, {})[(i, j)] = val
+        dic.setdefault(mR, {})[(j, i)] = np.conj(val)
+    nhop = 1 if style == "one-hop" else rng.randint(1, 6)
+    for _ in range(nhop):
+        m = rng.choice([1, 1, 2, 3])
+        R = tuple(rng.randint(-m, m) for _ in range(3))
+        i, j = rng.randrange(nw), rng.randrange(nw)
+        forced = {"all-negative": "neg", "all-imaginary": rng.choice(["imag", "imag-"])}.get(style)
+        v, k = sparse_value(rng, forced)
+        if R == (0, 0, 0) and i == j:
+            continue
+        add(ham, R, i, j, v)
+        kinds.add(k)
+        if vec and rng.random() < 0.7:
+            w = np.array([sparse_value(rng, forced)[0] if rng.random() < 0.7 else 0.0 for _ in range(3)], dtype=complex)
+            R2 = R if rng.random() < 0.5 else tuple(rng.randint(-1, 1) for _ in range(3))
+            if not (R2 == (0, 0, 0) and i == j):
+                add(mats["AA"], R2, i, j, w)
+    return kind, L, nw, cent, mats, style, kinds
+
+
+def oracle_sparse(ctx, scale):
+    """the whole pipeline on SPARSE structured models: System_R.from_sparse -> do_ws_dist(mp_grid) (remap, MDRS weights,
+    exclude_zeros) -> explicit sum at every mesh point must reproduce the k-space matrices of the model; nothing of
+    the model may be lost (total sum over R), X(-R) = X(R)^dagger"""
+    from wannierberri.system.system_R import System_R
+    rng = ctx.rng
+    nprng = ctx.nprng()
+    for it in range(ctx.n(60, 600) * scale):
+        kind, L, nw, cent, mats, style, kinds = gen_sparse_model(rng, nprng)
+        mp = gen_mesh(rng, 36)
+        wtol = rng.choice([1e-5, 1e-5, 1e-3, 1e-8])
+        case = dict(kind=kind, lattice=L, num_wann=nw, centres=cent, mp=mp, ws_dist_tol=wtol, style=style,
+                    matrices={k: {str(R): {str(ij): np.array(v) for ij, v in d.items()} for R, d in m.items()} for k, m in mats.items()})
+        ctx.count(f"oracle.sparse.style={style}")
+        for k in kinds:
+            ctx.count(f"oracle.sparse.has_{k}")
+        with ctx.attempt("from_sparse + do_ws_dist", case):
+            with quiet():
+                s = System_R.from_sparse(real_lattice=L, wannier_centers_red=cent, matrices=mats)
+                iR_old = s.rvec.iRvec.copy()
+                old = {k: s.get_R_mat(k).copy() for k in mats}
+                s.do_ws_dist(mp_grid=mp, ws_dist_tol=wtol)
+                rv0, _ = build_rvec(L, mp, wtol, np.array(s.wannier_centers_red), record=False)
+            far = mirror_outside_box(rv0, mp)
+            kpts = np.array([[i / mp[0], j / mp[1], k / mp[2]] for i in range(mp[0]) for j in range(mp[1]) for k in range(mp[2])])
+            ctx.case(signature=("sparse", kind, tuple(mp), repr(case["matrices"])), nontrivial=True)
+            nR = len(iR_old) + s.rvec.nRvec
+            for key in mats:
+                a = explicit_sum(kpts, iR_old, old[key])
+                b = explicit_sum(kpts, s.rvec.iRvec, s.get_R_mat(key))
+                # blocks whose elements are all <= 1e-8 may be dropped by exclude_zeros: bounded loss
+                has_tiny = bool(np.any((np.abs(old[key]) > 0) & (np.abs(old[key]) <= 1e-8)))
+                allowed = 1e-12 * (1 + np.abs(a).max()) + (1.1e-8 * nR if has_tiny else 0.0)
+                err = np.abs(a - b).max()
+                if err > allowed:
+                    ctx.fail(f"sparse model through do_ws_dist: {key}(k) at a mesh point changed by {err:.3e} "
+                             f"(allowed {allowed:.1e}); R vectors before {len(iR_old)}, after {s.rvec.nRvec}", dict(case, err=err))
+                tot_a, tot_b = old[key].sum(axis=0), s.get_R_mat(key).sum(axis=0)
+                if np.abs(tot_a - tot_b).max() > allowed:
+                    ctx.fail(f"sparse model through do_ws_dist: the total sum over R of {key} changed by "
+                             f"{np.abs(tot_a - tot_b).max():.3e} (part of the model was lost)", case)
+                if s.rvec.nRvec == 0:       # the folded model vanishes identically: every R vector was (rightly) dropped
+                    ctx.count("oracle.sparse.everything_dropped")
+                    continue
+                with quiet():
+                    h = np.abs(s.rvec.conj_XX_R(s.get_R_mat(key), ignore_mR_not_found=True) - s.get_R_mat(key)).max()
+                if h > 1e-12 * (1 + np.abs(a).max()):
+                    ctx.fail(f"sparse model through do_ws_dist: {key}(-R) != {key}(R)^dagger ({h:.3e})", case,
+                             kf="F12-hermiticity-far-centres" if far else None)
 
 
 def replay(ctx, case):
